@@ -13,3 +13,9 @@ func SetDelay(at int, starve bool) {}
 
 // DelayCount is 0 with the stock runtime.
 func DelayCount() int { return 0 }
+
+// SetSelect is a no-op with the stock runtime.
+func SetSelect(at int) {}
+
+// SelectCount is 0 with the stock runtime.
+func SelectCount() int { return 0 }
